@@ -66,7 +66,7 @@ trait Q: Clone {
     fn retain_mut(&mut self, m: u16, d: i32);
     fn iter_mut_rewrite(&mut self, k: usize, d: i32, from_back: bool);
     fn extend_h(&mut self, v: Vec<(It, i32)>, lo: usize, hi: Option<usize>);
-    fn append_from(&mut self, v: Vec<(It, i32)>) -> usize;
+    fn append_from(&mut self, v: Vec<(It, i32)>) -> (usize, usize, usize);
     fn clear(&mut self);
     fn drain_k(&mut self, k: usize, forget: bool) -> Vec<(It, i32)>;
     fn sorted_desc(self) -> Vec<It>;
@@ -80,6 +80,8 @@ trait Q: Clone {
     fn capacity_ops(&mut self, n: usize) -> Result<(), String>;
     fn leak_iter_mut(&mut self, writes: usize);
     fn sorted_iter_lens(self, k: usize) -> Result<(), String>;
+    /// std adaptors over iter / into_iter / drain agree with plain next / next_back
+    fn adaptors(&mut self, k: usize) -> Result<(), String>;
     fn pop_hi_if_panic(&mut self);
     /// run an operation whose user callback panics at its k-th call (the panic is caught by the caller)
     fn faulty(&mut self, which: u64, k: usize, id: u16);
@@ -99,7 +101,7 @@ macro_rules! common { ($T:ident) => {
     fn remove(&mut self, id: u16) -> Option<(It, i32)> { $T::remove(self, &It { id, tag: 9999 }).map(|(i, p)| (i, p.0)) }
     fn retain_mut(&mut self, m: u16, d: i32) { $T::retain_mut(self, |i, p| { *p += d * (i.id as i32 % 3 - 1); i.id % m != 0 }) }
     fn extend_h(&mut self, v: Vec<(It, i32)>, lo: usize, hi: Option<usize>) { self.extend(Hinted { it: pr(v).into_iter(), lo, hi }) }
-    fn append_from(&mut self, v: Vec<(It, i32)>) -> usize { let mut o: Self = pr(v).into_iter().collect(); self.append(&mut o); o.len() }
+    fn append_from(&mut self, v: Vec<(It, i32)>) -> (usize, usize, usize) { let mut o: Self = pr(v).into_iter().collect(); self.append(&mut o); (o.len(), o.iter().count(), o.iter().len()) }
     fn clear(&mut self) { $T::clear(self) }
     fn drain_k(&mut self, k: usize, forget: bool) -> Vec<(It, i32)> {
         let mut d = self.drain(); let mut got = vec![]; for _ in 0..k { if let Some(x) = d.next() { got.push((x.0, (x.1).0)); } }
@@ -110,6 +112,29 @@ macro_rules! common { ($T:ident) => {
     fn roundtrip(&self) -> Result<Self, String> { let s = serde_json::to_string(self).map_err(|e| e.to_string())?; serde_json::from_str(&s).map_err(|e| e.to_string()) }
     fn same(&self, o: &Self) -> bool { self == o }
     fn from_json(s: &str) -> Result<Self, String> { serde_json::from_str(s).map_err(|e| e.to_string()) }
+    fn adaptors(&mut self, k: usize) -> Result<(), String> {
+        let all: Vec<(u16, i32)> = self.iter().map(|(i, p)| (i.id, p.0)).collect(); let n = all.len();
+        let f = |x: Option<(&It, &Pr)>| x.map(|(i, p)| (i.id, p.0)); let g = |x: Option<(It, Pr)>| x.map(|(i, p)| (i.id, p.0));
+        macro_rules! same { ($got:expr, $want:expr, $what:expr) => { let (a, b) = ($got, $want); if a != b { return Err(format!("{} with k = {} over {} elements: {:?}, expected {:?}", $what, k, n, a, b)); } } }
+        same!(f(self.iter().nth(k)), all.get(k).copied(), "iter().nth(k)");
+        same!(f(self.iter().nth_back(k)), if k < n { Some(all[n - 1 - k]) } else { None }, "iter().nth_back(k)");
+        same!(f(self.iter().rev().skip(k).next()), if k < n { Some(all[n - 1 - k]) } else { None }, "iter().rev().skip(k).next()");
+        same!(f(self.iter().last()), all.last().copied(), "iter().last()");
+        same!(self.iter().count(), n, "iter().count()");
+        same!(self.iter().skip(k).len(), n.saturating_sub(k), "iter().skip(k).len()");
+        same!(self.iter().rev().take(k).len(), n.min(k), "iter().rev().take(k).len()");
+        { let mut it = self.iter(); let a = f(it.next()); let b = f(it.next_back()); same!((a, b, it.len()), (all.first().copied(), if n >= 2 { all.last().copied() } else { None }, n.saturating_sub(2)), "iter(): next, next_back, len"); }
+        same!(g(self.clone().into_iter().nth(k)), all.get(k).copied(), "into_iter().nth(k)");
+        same!(g(self.clone().into_iter().nth_back(k)), if k < n { Some(all[n - 1 - k]) } else { None }, "into_iter().nth_back(k)");
+        same!(g(self.clone().into_iter().rev().skip(k).next()), if k < n { Some(all[n - 1 - k]) } else { None }, "into_iter().rev().skip(k).next()");
+        same!(self.clone().into_iter().skip(k).len(), n.saturating_sub(k), "into_iter().skip(k).len()");
+        { let mut c = self.clone(); same!(g(c.drain().nth(k)), all.get(k).copied(), "drain().nth(k)"); same!($T::len(&c), 0, "len after drain().nth(k)"); }
+        { let mut c = self.clone(); same!(g(c.drain().nth_back(k)), if k < n { Some(all[n - 1 - k]) } else { None }, "drain().nth_back(k)"); }
+        { let mut c = self.clone(); same!(g(c.drain().rev().skip(k).next()), if k < n { Some(all[n - 1 - k]) } else { None }, "drain().rev().skip(k).next()"); }
+        { let mut c = self.clone(); let mut d = c.drain(); let a = g(d.next()); let b = g(d.next_back()); let l = d.len(); let rest: Vec<(u16, i32)> = d.map(|(i, p)| (i.id, p.0)).collect();
+          same!((a, b, l, rest.len()), (all.first().copied(), if n >= 2 { all.last().copied() } else { None }, n.saturating_sub(2), n.saturating_sub(2)), "drain(): next, next_back, len, rest");
+          if n >= 2 { same!(rest, all[1..n - 1].to_vec(), "drain(): elements between the two ends"); } }
+        Ok(()) }
     fn leak_iter_mut(&mut self, writes: usize) { let mut it = self.iter_mut(); for _ in 0..writes { if let Some((_, p)) = it.next() { *p -= 5; } } std::mem::forget(it); }
     fn faulty(&mut self, which: u64, k: usize, id: u16) {
         let mut n = 0usize;
@@ -248,7 +273,7 @@ fn step<T: Q>(q: &mut T, m: &mut Model, r: &mut Rng, log: &mut Vec<String>) -> R
             q.extend_h(v, lo, hi); }
         19 => { let n = r.below(40) as usize; let mut v: Vec<(It, i32)> = vec![]; for _ in 0..n { let i = r.below(ids + 20) as u16; if !v.iter().any(|x| x.0.id == i) { v.push((It { id: i, tag: 7 }, r.below(9) as i32)); } }
             log.push(format!("append(queue of {})", v.len())); let longer = v.len() > m.len();
-            let left = q.append_from(v.clone()); ck!(left == 0, "C07,C16", "append left {} elements in the other queue", left);
+            let left = q.append_from(v.clone()); ck!(left == (0, 0, 0), "C07,C16,C13", "append leaves the other queue with (len, iter().count(), iter().len()) = {:?}", left);
             for (i, p) in v { if !m.contains_key(&i.id) { m.insert(i.id, (i.tag, p)); } else if longer { let cur = q.get(i.id); if let Some(c) = cur { m.insert(i.id, c); } } } }
         20 => { if r.below(3) == 0 { log.push("clear".into()); q.clear(); m.clear(); } else { let k = r.below(5) as usize; let f = r.below(3) == 0; log.push(format!("drain take {} forget {}", k, f));
             let got = q.drain_k(k, f); for (i, p) in &got { ck!(m.get(&i.id) == Some(&(i.tag, *p)), "C16,C13", "drain yielded a pair that was not stored"); } if !f { ck!(got.len() == m.len(), "C16", "drain yielded {} of {}", got.len(), m.len()); } m.clear(); } }
@@ -268,6 +293,7 @@ fn step<T: Q>(q: &mut T, m: &mut Model, r: &mut Rng, log: &mut Vec<String>) -> R
             let s = c.clone().sorted_desc(); ck!(s.len() == m.len(), "C06", "sorted vec has {} of {} elements", s.len(), m.len());
             let ps: Vec<i32> = s.iter().map(|i| m.get(&i.id).map(|x| x.1).unwrap_or(i32::MIN)).collect();
             ck!(ps.windows(2).all(|w| w[0] >= w[1]), "C06", "sorted vec is not in non-increasing order: {:?}", ps);
+            if let Err(e) = q.adaptors(r.below(7) as usize) { return Err(Fail { props: "C13,C16".into(), what: e }); }
             if let Err(e) = c.clone().sorted_iter_lens(r.below(6) as usize) { return Err(Fail { props: "C13,C06".into(), what: e }); }
             match q.roundtrip() { Ok(b) => { ck!(b.same(q), "C15", "serde round trip is not equal"); observe(&b, m).map_err(|f| Fail { props: "C15".into(), what: format!("after serde round trip: {}", f.what) })?; } Err(e) => return Err(Fail { props: "C15".into(), what: e }) }
             { // a serialized sequence that repeats items (adjacent and not): no panic, a consistent queue over the distinct items
